@@ -16,6 +16,23 @@ from .common import log, GRange, AldyException, script_path, chr_prefix
 from .gene import Gene
 
 
+def _parse_bool(v) -> bool:
+    """
+    Parse a boolean parameter value.
+    Accepts booleans, 1/0 and `true`/`false` strings (case-insensitive).
+
+    :raise: :py:class:`ValueError` if the value is not a valid boolean.
+    """
+    if isinstance(v, bool):
+        return v
+    s = str(v).strip().lower()
+    if s in ("true", "1"):
+        return True
+    if s in ("false", "0"):
+        return False
+    raise ValueError(f"invalid boolean value {v}")
+
+
 class Profile:
     """Profile and model parameter information."""
 
@@ -230,7 +247,7 @@ class Profile:
                 else:
                     try:
                         if isinstance(self.__dict__[n], bool):
-                            self.__dict__[n] = not (v in ["False", "0"])
+                            self.__dict__[n] = _parse_bool(v)
                         else:
                             typ = type(self.__dict__[n])
                             self.__dict__[n] = typ(v)
